@@ -74,6 +74,9 @@ class Session(Thread):
             device_handled_raw=self._device_handler.handle_raw_dispatch(raw)
             if isinstance(device_handled_raw, str):
                 root = parse_root(device_handled_raw)
+                # listeners get the text the profile repaired (e.g. without the
+                # NUL padding), not the one that could not be parsed
+                raw = device_handled_raw
             elif isinstance(device_handled_raw, Exception):
                 self._dispatch_error(device_handled_raw)
                 return
